@@ -30,6 +30,9 @@ type ProtoSpec struct {
 	Build    func(m Msg) socket.Message
 	Receiver func() socket.Message
 	BodyOf   func(got socket.Message) []byte
+	// BodyObj makes the object a receiver that takes the body binds to it (default: new([]byte), the
+	// documented codec bypass). Must agree with Receiver when both are set.
+	BodyObj func() interface{}
 }
 
 func GenStatus(t *rapid.T, m *Msg, maxLen int, text func(t *rapid.T, label string, max int) string) {
@@ -295,17 +298,32 @@ func CheckStream(t *rapid.T, spec ProtoSpec, rec *Rec) {
 	}
 	chunks, cycle := Chunks(t, "chunks")
 	small := len(chunks) > 0 && cycle
+	// what the receiving side does with the body of each frame
+	modes := make([]RecvMode, k)
+	untakenBeforeFrame := false
+	for i := range modes {
+		modes[i] = rapid.SampledFrom(recvModeDist).Draw(t, "receiver")
+		if !modes[i].takes() && i < k-1 {
+			untakenBeforeFrame = true
+		}
+	}
 	canon := ""
 	for _, m := range msgs {
 		canon += m.Canon() + "#"
 	}
-	rec.Case(canon+fmt.Sprint(chunks, cycle), k >= 2 && small, fmt.Sprintf("frames=%d", k), fmt.Sprintf("smallchunks=%v", small))
-	if rec.WantSample() && k >= 2 && small {
+	classes := []string{fmt.Sprintf("frames=%d", k), fmt.Sprintf("smallchunks=%v", small), fmt.Sprintf("untaken-body-before-a-frame=%v", untakenBeforeFrame)}
+	for i, md := range modes {
+		if !md.takes() {
+			classes = append(classes, "untaken:"+mtypeClass(msgs[i].Mtype))
+		}
+	}
+	rec.Case(canon+fmt.Sprint(chunks, cycle, modes), k >= 2 && (small || untakenBeforeFrame), classes...)
+	if rec.WantSample() && k >= 2 && (small || untakenBeforeFrame) {
 		ss := []interface{}{}
 		for _, m := range msgs {
 			ss = append(ss, m.Sample())
 		}
-		rec.Sample(map[string]interface{}{"proto": spec.Name, "stream": ss, "chunks": chunks, "cycle": cycle})
+		rec.Sample(map[string]interface{}{"proto": spec.Name, "stream": ss, "chunks": chunks, "cycle": cycle, "receivers": fmt.Sprint(modes)})
 	}
 
 	// pack all frames through ONE protocol instance (shared writer)
@@ -330,25 +348,26 @@ func CheckStream(t *rapid.T, spec ProtoSpec, rec *Rec) {
 		}
 	}
 	stream := bytes.Join(frames, nil)
-	if spec.PerFrame {
-		return
-	}
 	rrw := &RW{In: stream, Chunks: chunks, Cycle: cycle}
 	rp := spec.Fn()(rrw)
 	consumed := 0
 	// like a session's read loop, decode every frame of the stream into ONE recycled
 	// message (reset between frames) in half of the cases, into fresh ones otherwise
-	recycle := spec.Receiver == nil && len(chunks)%2 == 0
+	recycle := len(chunks)%2 == 0
 	var pooled socket.Message
 	for i, m := range msgs {
-		got := spec.receiver()
+		if spec.PerFrame {
+			// one frame per underlying reader (the websocket layer delimits the frames): the frames
+			// are decoded one after the other, each from its own reader, by the generated receivers
+			rrw = &RW{In: frames[i], Chunks: chunks, Cycle: cycle}
+			rp = spec.Fn()(rrw)
+			consumed = 0
+		}
+		mode := modes[i]
+		obs := &bindObs{}
+		got := spec.streamReceiver(mode, pooled, obs)
 		if recycle {
-			if pooled == nil {
-				pooled = got
-			} else {
-				pooled.Reset(socket.WithNewBody(func(socket.Header) interface{} { return new([]byte) }))
-				got = pooled
-			}
+			pooled = got
 		}
 		var uerr error
 		func() {
@@ -359,25 +378,45 @@ func CheckStream(t *rapid.T, spec ProtoSpec, rec *Rec) {
 			}()
 			uerr = rp.Unpack(got)
 		}()
+		how := fmt.Sprintf("frame #%d of %d (receiver: %s; receivers of the stream: %v)", i, k, mode, modes)
 		if uerr != nil {
-			t.Fatalf("%s: frame #%d of %d in a chunked stream failed to decode: %v", spec.Name, i, k, uerr)
+			t.Fatalf("C05 violated: %s: %s in a chunked stream failed to decode: %v", spec.Name, how, uerr)
 		}
-		if d := m.Compare(got, spec.cmpOpts(m)); d != "" {
-			t.Fatalf("%s: frame #%d of %d in a chunked stream differs: %s", spec.Name, i, k, d)
+		want, opts := m, spec.cmpOpts(m)
+		if !mode.takes() {
+			// nobody takes the body: the header fields are still those of the frame
+			want, opts = spec.headerOnly(m)
+		}
+		if d := want.Compare(got, opts); d != "" {
+			t.Fatalf("C05 violated: %s: %s in a chunked stream differs: %s", spec.Name, how, d)
+		}
+		if mode.binds() {
+			// the read path of a session decides inside the binder what to do with the frame
+			// (route lookup by service method, pending call by seq, reply metadata handed to the
+			// call): it runs once per frame and sees the frame's own header
+			if obs.calls != 1 {
+				t.Fatalf("C05 violated: %s: %s: the body binder (Message.NewBody func) ran %d times during one Unpack", spec.Name, how, obs.calls)
+			}
+			if d := obs.diff(m, opts); d != "" {
+				t.Fatalf("C05 violated: %s: %s: header seen by the body binder differs from the frame's: %s", spec.Name, how, d)
+			}
 		}
 		consumed += len(frames[i])
 		if rrw.Consumed() != consumed {
-			t.Fatalf("%s: after frame #%d the reader consumed %d bytes, frames so far are %d bytes (lost frame sync)", spec.Name, i, rrw.Consumed(), consumed)
+			t.Fatalf("C05 violated: %s: after %s the reader consumed %d bytes, frames so far are %d bytes (lost frame sync)", spec.Name, how, rrw.Consumed(), consumed)
 		}
-		// size independence on the reading side
+		// size independence on the reading side (same kind of receiver, frame alone on a fresh instance)
 		arw := &RW{In: frames[i]}
-		alone := spec.receiver()
+		alone := spec.streamReceiver(mode, nil, &bindObs{})
 		if err := spec.Fn()(arw).Unpack(alone); err != nil {
-			t.Fatalf("%s: frame #%d alone failed to decode: %v", spec.Name, i, err)
+			t.Fatalf("C05 violated: %s: %s alone failed to decode: %v", spec.Name, how, err)
 		}
 		if alone.Size() != got.Size() {
-			t.Fatalf("%s: reported size of frame #%d depends on preceding traffic: %d in the stream, %d decoded alone", spec.Name, i, got.Size(), alone.Size())
+			t.Fatalf("C05 violated: %s: reported size of %s depends on preceding traffic: %d in the stream, %d decoded alone", spec.Name, how, got.Size(), alone.Size())
 		}
+	}
+	if spec.PerFrame {
+		return
 	}
 	// the stream is exhausted: the next Unpack must report an error, not a message
 	extra := spec.receiver()
@@ -396,7 +435,7 @@ func CheckStream(t *rapid.T, spec ProtoSpec, rec *Rec) {
 }
 
 const RuleMsg = "one message per case drawn from the protocol's documented field set (see DESIGN.md C05 table); non-trivial = a text field with a byte outside [A-Za-z0-9], a boundary length, a negative/extreme seq or a non-empty filter pipe; distinct by canonical encoding of all fields"
-const RuleStream = "1-6 back-to-back frames packed through one protocol instance, decoded from the concatenated stream under a generated read-chunk schedule; non-trivial = >=2 frames and a cycling small-chunk schedule"
+const RuleStream = "1-6 back-to-back frames packed through one protocol instance, decoded from the concatenated stream (websocket sub-protocols: frame by frame, one reader each) under a generated read-chunk schedule into fresh messages or one recycled message; per frame the receiver (generated) takes the body through its NewBody binder, takes it into a preset body object, or leaves it untaken (binder returns nil, binder sets a body and then returns nil like a vetoed reply, no binder at all); oracle: a taken frame equals the packed message in every field, an untaken frame in every header field, the binder runs once per frame and sees the frame's seq/type/method/metadata, the reader has consumed exactly the frames so far, sizes equal those of the frame decoded alone by the same kind of receiver, the exhausted stream yields an error; non-trivial = >=2 frames and (a cycling small-chunk schedule or an untaken body followed by another frame)"
 
 func RunSpec(t *testing.T, spec ProtoSpec) {
 	t.Run("msg", func(t *testing.T) {
@@ -407,6 +446,117 @@ func RunSpec(t *testing.T, spec ProtoSpec) {
 		rec := NewRec(t, "C05", spec.Name+"/stream", RuleStream)
 		rapid.Check(t, func(rt *rapid.T) { CheckStream(rt, spec, rec) })
 	})
+}
+
+// RecvMode says what the receiving side does with the body of one frame.
+type RecvMode string
+
+const (
+	RecvTake     RecvMode = "take"      // the NewBody binder returns the body object (a handler's argument, a call's result)
+	RecvPreset   RecvMode = "preset"    // the body object was set on the message beforehand, no binder
+	RecvUntaken  RecvMode = "untaken"   // the binder returns nil: unknown route, reply to a call that is gone, result-less call
+	RecvVetoed   RecvMode = "vetoed"    // the binder sets the body and then returns nil (bindReply when a reply hook refuses)
+	RecvNoBinder RecvMode = "no-binder" // neither body nor binder
+)
+
+var recvModeDist = []RecvMode{RecvTake, RecvTake, RecvTake, RecvTake, RecvPreset, RecvUntaken, RecvUntaken, RecvUntaken, RecvVetoed, RecvNoBinder}
+
+func (r RecvMode) takes() bool { return r == RecvTake || r == RecvPreset }
+func (r RecvMode) binds() bool { return r == RecvTake || r == RecvUntaken || r == RecvVetoed }
+
+// bindObs is what a body binder saw of the header when it ran.
+type bindObs struct {
+	calls  int
+	seq    int32
+	mtype  byte
+	method string
+	meta   []KV
+}
+
+func (o *bindObs) record(h socket.Header) {
+	o.calls++
+	o.seq, o.mtype, o.method = h.Seq(), h.Mtype(), h.ServiceMethod()
+	o.meta = nil
+	h.Meta().VisitAll(func(k, v []byte) { o.meta = append(o.meta, KV{string(k), string(v)}) })
+}
+
+func (o *bindObs) diff(m Msg, opts CompareOpts) string {
+	if o.seq != m.Seq {
+		return fmt.Sprintf("seq: got %d want %d", o.seq, m.Seq)
+	}
+	if o.mtype != m.Mtype {
+		return fmt.Sprintf("mtype: got %d want %d", o.mtype, m.Mtype)
+	}
+	if !opts.SkipMethod && o.method != m.Method {
+		return fmt.Sprintf("service method: got %q want %q", o.method, m.Method)
+	}
+	if opts.MetaAsSet {
+		for _, kv := range m.Meta {
+			found := false
+			for _, g := range o.meta {
+				found = found || g == kv
+			}
+			if !found {
+				return fmt.Sprintf("meta: pair %v missing in %v", kv, o.meta)
+			}
+		}
+		return ""
+	}
+	if len(o.meta) != len(m.Meta) {
+		return fmt.Sprintf("meta: got %v want %v", o.meta, m.Meta)
+	}
+	for i := range o.meta {
+		if o.meta[i] != m.Meta[i] {
+			return fmt.Sprintf("meta[%d]: got %v want %v", i, o.meta[i], m.Meta[i])
+		}
+	}
+	return ""
+}
+
+func (spec ProtoSpec) bodyObj() interface{} {
+	if spec.BodyObj != nil {
+		return spec.BodyObj()
+	}
+	return new([]byte)
+}
+
+// streamReceiver prepares the message one frame is decoded into, the way the framework's read
+// path does (context.go: input.Reset(WithNewBody(binding)); binding returns nil for a body
+// nobody takes): pooled is reset and reused when given, otherwise a new message is made.
+func (spec ProtoSpec) streamReceiver(mode RecvMode, pooled socket.Message, obs *bindObs) socket.Message {
+	var msg socket.Message
+	var settings []socket.MessageSetting
+	switch mode {
+	case RecvTake:
+		settings = append(settings, socket.WithNewBody(func(h socket.Header) interface{} { obs.record(h); return spec.bodyObj() }))
+	case RecvPreset:
+		settings = append(settings, socket.WithBody(spec.bodyObj()))
+	case RecvUntaken:
+		settings = append(settings, socket.WithNewBody(func(h socket.Header) interface{} { obs.record(h); return nil }))
+	case RecvVetoed:
+		settings = append(settings, socket.WithNewBody(func(h socket.Header) interface{} {
+			obs.record(h)
+			msg.SetBody(spec.bodyObj())
+			return nil
+		}))
+	case RecvNoBinder:
+	default:
+		panic("harness: unknown receiver mode " + string(mode))
+	}
+	if pooled != nil {
+		msg = pooled.Reset(settings...)
+	} else {
+		msg = socket.NewMessage(settings...)
+	}
+	return msg
+}
+
+// headerOnly is the expectation for a frame whose body nobody took: every header field.
+func (spec ProtoSpec) headerOnly(m Msg) (Msg, CompareOpts) {
+	o := spec.Cmp(m)
+	o.BodyOf = func(socket.Message) []byte { return nil }
+	m.Body = nil
+	return m, o
 }
 
 func (spec ProtoSpec) build(m Msg) socket.Message {
